@@ -38,7 +38,7 @@ Mm1 == [client_port |-> <<9>>, mm_payload |-> <<1, 2>>, ts |-> [s |-> <<4>>, t |
 St1 == [processed_messages |-> <<4>>]
 
 Ops == {[op |-> "qr", r |-> QrA], [op |-> "qr", r |-> QrB], [op |-> "qr", r |-> QrZ], [op |-> "qr", r |-> QrC, stats |-> St1],
-        [op |-> "aec", r |-> Aec1], [op |-> "aec", r |-> Aec2], [op |-> "mm", r |-> Mm1],
+        [op |-> "aec", r |-> Aec1], [op |-> "aec", r |-> Aec2], [op |-> "aec", r |-> Aec1 @@ [ae_count_in |-> <<7>>]], [op |-> "mm", r |-> Mm1],
         [op |-> "wb"], [op |-> "rot", export |-> TRUE], [op |-> "rot", export |-> FALSE],
         [op |-> "setbp", i |-> 0], [op |-> "setbp", i |-> 1], [op |-> "setbp", i |-> 2], [op |-> "setbp", i |-> 9],
         [op |-> "addbp", bp |-> BP2], [op |-> "editbp", bp |-> BP3]}
@@ -74,7 +74,7 @@ MCNext ==
                     THEN Append(subQR, FilterQR(o.r, Hints(ex), BP(ex).tps)) ELSE subQR
         /\ subMM' = IF o.op = "mm" /\ StorableMM(o.r, Hints(ex))
                     THEN Append(subMM, FilterMM(o.r, BP(ex).tps)) ELSE subMM
-        /\ subAEC' = IF o.op = "aec" /\ AECEnabled(Hints(ex)) THEN Append(subAEC, o.r) ELSE subAEC
+        /\ subAEC' = IF o.op = "aec" /\ AECEnabled(Hints(ex)) THEN Append(subAEC, AecKeyIn(o.r)) ELSE subAEC
 
 MCSpec == MCInit /\ [][MCNext]_vars
 
